@@ -114,6 +114,15 @@ pub fn check_scenario(
     j
 }
 
+/// Finding key: the input class that fails, prefixed by the clause only for the
+/// robustness clauses (a panic or a hang is a different finding than a wrong answer).
+pub fn std_key(f: &Failure, class: &str) -> String {
+    match f.clause {
+        "panic" | "hang" => format!("{}:{}", f.clause, class),
+        _ => class.to_string(),
+    }
+}
+
 /// scenario JSON with long byte strings abbreviated (for evidence samples)
 pub fn scenario_json_short(sc: &Scenario) -> Value {
     let mut v = scenario_json(sc);
